@@ -91,6 +91,9 @@ func (config ConfigDistribution) ExportJson(filename string) error {
 /* -------------------------------------------------------------------------- */
 
 func (config ConfigDistribution) getBool(a interface{}) (bool, bool) {
+  if a == nil {
+    return false, false
+  }
   switch reflect.TypeOf(a).Kind() {
   case reflect.Bool:
     return bool(reflect.ValueOf(a).Bool()), true
@@ -99,6 +102,9 @@ func (config ConfigDistribution) getBool(a interface{}) (bool, bool) {
 }
 
 func (config ConfigDistribution) getFloat(a interface{}) (float64, bool) {
+  if a == nil {
+    return 0, false
+  }
   switch reflect.TypeOf(a).Kind() {
   case reflect.Float64:
     return reflect.ValueOf(a).Float(), true
@@ -107,6 +113,9 @@ func (config ConfigDistribution) getFloat(a interface{}) (float64, bool) {
 }
 
 func (config ConfigDistribution) getInt(a interface{}) (int, bool) {
+  if a == nil {
+    return 0, false
+  }
   switch reflect.TypeOf(a).Kind() {
   case reflect.Float64:
     return int(reflect.ValueOf(a).Float()), true
@@ -115,6 +124,9 @@ func (config ConfigDistribution) getInt(a interface{}) (int, bool) {
 }
 
 func (config ConfigDistribution) getString(a interface{}) (string, bool) {
+  if a == nil {
+    return "", false
+  }
   switch reflect.TypeOf(a).Kind() {
   case reflect.String:
     return reflect.ValueOf(a).String(), true
@@ -131,7 +143,7 @@ func (config ConfigDistribution) getFloats(a interface{}) ([]float64, bool) {
     s := reflect.ValueOf(a)
     p := make([]float64, s.Len())
     for i := 0; i < s.Len(); i++ {
-      if v, ok := config.getFloat(s.Index(i).Elem().Interface()); !ok {
+      if v, ok := config.getFloat(s.Index(i).Interface()); !ok {
         return nil, false
       } else {
         p[i] = v
@@ -151,7 +163,7 @@ func (config ConfigDistribution) getInts(a interface{}) ([]int, bool) {
     s := reflect.ValueOf(a)
     p := make([]int, s.Len())
     for i := 0; i < s.Len(); i++ {
-      if v, ok := config.getInt(s.Index(i).Elem().Interface()); !ok {
+      if v, ok := config.getInt(s.Index(i).Interface()); !ok {
         return nil, false
       } else {
         p[i] = v
@@ -171,7 +183,7 @@ func (config ConfigDistribution) getStrings(a interface{}) ([]string, bool) {
     s := reflect.ValueOf(a)
     p := make([]string, s.Len())
     for i := 0; i < s.Len(); i++ {
-      if v, ok := config.getString(s.Index(i).Elem().Interface()); !ok {
+      if v, ok := config.getString(s.Index(i).Interface()); !ok {
         return nil, false
       } else {
         p[i] = v
@@ -203,6 +215,9 @@ func (config ConfigDistribution) GetParametersAsMatrix(t ScalarType, n, m int) (
 }
 
 func (config ConfigDistribution) GetNamedParameter(name string) (interface{}, bool) {
+  if config.Parameters == nil {
+    return 0, false
+  }
   switch reflect.TypeOf(config.Parameters).Kind() {
   case reflect.Map:
     s := reflect.ValueOf(config.Parameters)
@@ -296,8 +311,8 @@ func (config ConfigDistribution) getNestedInts(a interface{}) (interface{}, bool
     s := reflect.ValueOf(a)
     p := make([]interface{}, s.Len())
     for i := 0; i < s.Len(); i++ {
-      if v, ok := config.getInt(s.Index(i).Elem().Interface()); !ok {
-        if v, ok := config.getNestedInts(s.Index(i).Elem().Interface()); !ok {
+      if v, ok := config.getInt(s.Index(i).Interface()); !ok {
+        if v, ok := config.getNestedInts(s.Index(i).Interface()); !ok {
           return nil, false
         } else {
           p[i] = v
